@@ -304,6 +304,11 @@ example : wf (compl (joined [ranged 1 3 true false, ranged 6 9 false true])) = t
     normalizeMarkAbs (expand (compl (joined [ranged 1 3 true false, ranged 6 9 false true])) 0 3) 10 = false ∧
     ambOk 10 (expand (compl (joined [ranged 1 3 true false, ranged 6 9 false true])) 0 3) = true ∧
     outerMarks (compl (joined [ranged 1 3 true false, ranged 6 9 false true])) = (true, true) ∧
+    normOk 10 (expand (compl (joined [ranged 1 3 true false, ranged 6 9 false true])) 0 3) = true ∧
+    expandAbs (compl (joined [ranged 1 3 true false, ranged 6 9 false true])) 0 3 = false ∧
+    normalizeAbs (expand (compl (joined [ranged 1 3 true false, ranged 6 9 false true])) 0 3) 10 = false ∧
+    denIn 10 (den (compl (joined [ranged 1 3 true false, ranged 6 9 false true]))) ∧
+    (den (compl (joined [ranged 1 3 true false, ranged 6 9 false true]))).Nodup ∧
     (normalize (expand (compl (joined [ranged 1 3 true false, ranged 6 9 false true])) 0 3) 10).beq
       (compl (joined [ranged 4 6 true false, ranged 9 10 false false, ranged 0 2 false true])) = true := by
   decide
